@@ -13,9 +13,10 @@ package parser
 //@   ensures imp(!result, exists(k, 0, len(safeCmds), safeCmds[k] == f))
 
 // The unsafe verdict sticks: no iteration of the tokenizer's main loop clears it.
-//@ func Parse [C34]
-//@   check none
-//@   scope functional
+//@ func Parse [C34 C20 C19]
+//@   check index, slice
+//@   check-only block
+//@   loop 1 invariant 0 <= iǂ1
 //@   at call Parse$1#* modifies syntaxHighlighted, reset
 //@   at call Parse$2#* modifies syntaxHighlighted, reset
 //@   at call Parse$3#* modifies syntaxHighlighted, reset
@@ -26,3 +27,9 @@ package parser
 //@   loop 1 step imp(old(pt.Unsafe), pt.Unsafe)
 // a `$` (variable or sub-shell) outside comments, escapes, single quotes and variable names marks the line unsafe
 //@   loop 1 step imp(!old(pt.Comment) && old(pt.VarSigil) == "" && !old(pt.Escaped) && !old(pt.QuoteSingle) && block[old(i)] == '$', pt.Unsafe)
+
+// next(r): is the rune after the cursor r? (never reads past the end)
+//@ func Parse$8 [C34 C20 C19]
+//@   requires 0 <= i
+//@   modifies nothing
+//@   ensures result == (i + 1 < len(block) && block[i + 1] == r)
